@@ -32,7 +32,8 @@ def write(prop, tier, seed, level, coverage, wall_s, violations=0, assumptions=(
         "violations": int(violations),
     }
     _validate(doc)
-    d = os.path.join(env.VERIF, "evidence")
+    # evidence/ only ever describes /repo itself; runs against a scratch copy (selftest, seeded changes) write elsewhere
+    d = os.path.join(env.VERIF, "evidence" if os.path.realpath(env.REPO) == "/repo" else ".selftest-evidence")
     os.makedirs(d, exist_ok=True)
     tmp = os.path.join(d, f".{prop}.json.tmp")
     with open(tmp, "w") as f:
